@@ -73,6 +73,7 @@ GENERICS = [
     ("glt", "'x", [("x", "&'x [u8]")], ""),
     ("gconst", "const N: usize", [("arr", "[u8; N]")], ""),
     ("gtw", "T", [("g", "T")], "T: Clone + Send"),
+    ("gct", "const N: usize, T: Clone + Send", [("arr", "[u8; N]"), ("g", "T")], ""),
 ]
 RETS = [("runit", "", "()"), ("rowned", "u64", "0"), ("rborrow", None, None)]
 QUALS = ["", "async ", "unsafe ", "pub(crate) ", "async unsafe ", "const ", "const unsafe ", "unsafe extern \"C\" ", "pub extern \"C\" "]
@@ -86,7 +87,7 @@ def matrix_cases():
                 for rk, rty, rexpr in RETS:
                     for q in QUALS:
                         allp = list(params) + list(gparams)
-                        if q.startswith("const") and (pk == "p3" or gk in ("gt", "gtw") or dk == "gval"):
+                        if q.startswith("const") and (pk == "p3" or gk in ("gt", "gtw", "gct") or dk == "gval"):
                             continue  # values with destructors cannot be dropped in a const fn
                         if rk == "rborrow":
                             if gk == "glt":
